@@ -632,6 +632,18 @@ pub async fn run_suite(seed: u64, cases: usize, only: Option<usize>, out_path: S
       }
       *stats.entry("directed".into()).or_insert(0) += 1;
     }
+    {
+      let case = 1_000_020;
+      progress.store((case as u64) << 32, Ordering::Relaxed);
+      let (log, fails) = probe_reuse_during_cleanup().await;
+      if !fails.is_empty() {
+        transcript.push_str(&log);
+      }
+      for f in fails {
+        failures.push((case, format!("{f} (directed history `reuse-during-cleanup`: `nvh probe_reuse`)")));
+      }
+      *stats.entry("directed".into()).or_insert(0) += 1;
+    }
     for (i, variant) in ["oversize", "write"].iter().enumerate() {
       let case = 1_000_010 + i;
       progress.store((case as u64) << 32, Ordering::Relaxed);
@@ -1231,5 +1243,72 @@ pub async fn probe_failed_loop(variant: &str) -> (String, Vec<String>) {
       fails.push(format!("C01: [departed-user-delivery] the session that came back under the name received a MESSAGE of a channel it never joined ({variant})"));
     }
   }
+  (c.log, fails)
+}
+
+/// Directed probe (DESIGN D34): a user in two channels disconnects; its clean-up is suspended in the modulator at the first channel;
+/// the same name identifies again and somebody publishes on the *other* channel, which the clean-up has not reached yet.
+pub async fn probe_reuse_during_cleanup() -> (String, Vec<String>) {
+  let mut cfg = SrvCfg::default();
+  cfg.modulator = Some(vec![Operation::ForwardEvent]);
+  cfg.request_timeout_ms = 60_000;
+  let srv = Srv::new(cfg.clone()).await;
+  let modu = srv.modulator.clone().unwrap();
+  let mut c = Case {
+    auth: false,
+    srv,
+    rng: Rng::new(1),
+    user: BTreeMap::new(),
+    dead: BTreeSet::new(),
+    closing: BTreeSet::new(),
+    inbox: BTreeMap::new(),
+    sent: Vec::new(),
+    next_id: 10,
+    log: String::new(),
+    fails: Vec::new(),
+  };
+  let a = c.open_identify("alice").await;
+  let b = c.open_identify("bob").await;
+  for h in CHANS {
+    let id = c.id();
+    c.request(b, Req::Join { id, chan: full(h), ob: None }).await;
+    let id = c.id();
+    c.request(a, Req::Join { id, chan: full(h), ob: None }).await;
+  }
+  modu.set_hold(true);
+  modu.script.lock().unwrap().hold_prefix = "event".into();
+  c.close(a);
+  c.pump(2).await;
+  let parked = modu.parked();
+  let _ = writeln!(c.log, "parked after alice's disconnect: {parked:?}");
+  // which channel is the clean-up working on? publish on the other one
+  let busy = if parked.iter().any(|d| d.contains("!c1@")) { "c1" } else { "c2" };
+  let other = if busy == "c1" { "c2" } else { "c1" };
+  let a2 = c.open_identify("alice").await;
+  let mut fails = Vec::new();
+  if c.user.contains_key(&a2) {
+    let before = c.inbox.get(&a2).map(|v| v.len()).unwrap_or(0);
+    let id = c.id();
+    c.request(b, Req::Broadcast { id, chan: full(other), qos: None, payload: b"for-members-only".to_vec() }).await;
+    c.pump(3).await;
+    let got = c.inbox.get(&a2).map(|v| v[before.min(v.len())..].iter().filter(|f| matches!(f.msg, Message::Message(_))).count()).unwrap_or(0);
+    if got > 0 {
+      fails.push(format!(
+        "C01: [departed-user-delivery] alice's only connection had closed; while her clean-up was still waiting for the modulator a new session identified as alice (joined nothing) and received a MESSAGE of {other}"
+      ));
+    }
+  } else {
+    let _ = writeln!(c.log, "the name was not available while the clean-up was in progress");
+  }
+  // let the clean-up finish
+  modu.set_hold(false);
+  for _ in 0..10 {
+    if modu.parked().is_empty() {
+      break;
+    }
+    modu.release(0, true);
+    c.pump(2).await;
+  }
+  c.pump(10).await;
   (c.log, fails)
 }
